@@ -1,6 +1,6 @@
 /* halloc: allocation-fault executor (C20).  Links the library with -Wl,--wrap=malloc,calloc,realloc,free so
  * that every allocation request the LIBRARY makes is observed and the k-th can be failed.
- * usage: halloc <scenario> <failk>     (failk = 0: no injected failure)
+ * usage: halloc <scenario> <failk> [p]     (failk = 0: no injected failure; p: every request from the failk-th on fails)
  * stdout: one JSON event per allocator call made while the library call is running, then the return event.
  * The program records; TraceAlloc.tla judges. */
 #define _GNU_SOURCE
@@ -19,7 +19,8 @@ void *__real_calloc(size_t, size_t);
 void *__real_realloc(void *, size_t);
 void __real_free(void *);
 
-static int armed, nreq, failk;
+static int armed, nreq, failk, persist;      /* persist: every request from the failk-th on fails (memory stays exhausted) */
+#define FAILS(k) (persist ? (failk && (k) >= failk) : (k) == failk)
 static void *live[256];
 static int nlive_ids;
 static char evbuf[1 << 16];
@@ -32,7 +33,7 @@ void *__wrap_malloc(size_t n) {
     void *p;
     if (!armed) return __real_malloc(n);
     nreq++;
-    if (nreq == failk) { ev("{\"e\":\"malloc\",\"k\":%ld,\"ok\":false,\"id\":0,\"size\":%ld}\n", nreq, (long)n); return NULL; }
+    if (FAILS(nreq)) { ev("{\"e\":\"malloc\",\"k\":%ld,\"ok\":false,\"id\":0,\"size\":%ld}\n", nreq, (long)n); return NULL; }
     armed = 0; p = __real_malloc(n); armed = 1;
     ev("{\"e\":\"malloc\",\"k\":%ld,\"ok\":true,\"id\":%ld}\n", nreq, newid(p));
     return p;
@@ -41,7 +42,7 @@ void *__wrap_calloc(size_t a, size_t b) {
     void *p;
     if (!armed) return __real_calloc(a, b);
     nreq++;
-    if (nreq == failk) { ev("{\"e\":\"malloc\",\"k\":%ld,\"ok\":false,\"id\":0,\"size\":%ld}\n", nreq, (long)(a * b)); return NULL; }
+    if (FAILS(nreq)) { ev("{\"e\":\"malloc\",\"k\":%ld,\"ok\":false,\"id\":0,\"size\":%ld}\n", nreq, (long)(a * b)); return NULL; }
     armed = 0; p = __real_calloc(a, b); armed = 1;
     ev("{\"e\":\"malloc\",\"k\":%ld,\"ok\":true,\"id\":%ld}\n", nreq, newid(p));
     return p;
@@ -52,7 +53,7 @@ void *__wrap_realloc(void *q, size_t n) {
     if (!armed) return __real_realloc(q, n);
     nreq++;
     old = q ? idof(q) : 0;
-    if (nreq == failk) { ev("{\"e\":\"realloc\",\"k\":%ld,\"ok\":false,\"old\":%ld,\"id\":0}\n", nreq, old); return NULL; }
+    if (FAILS(nreq)) { ev("{\"e\":\"realloc\",\"k\":%ld,\"ok\":false,\"old\":%ld,\"id\":0}\n", nreq, old); return NULL; }
     armed = 0; p = __real_realloc(q, n); armed = 1;
     if (old) live[old] = NULL;
     evlen += snprintf(evbuf + evlen, sizeof evbuf - evlen, "{\"e\":\"realloc\",\"k\":%d,\"ok\":true,\"old\":%d,\"id\":%d}\n", nreq, old, newid(p));
@@ -81,6 +82,7 @@ int main(int argc, char **argv) {
     static char dest[256];
     static wchar_t wdest[2048], wsrc[2048];
     failk = argc > 2 ? atoi(argv[2]) : 0;
+    persist = argc > 3 && argv[3][0] == 'p';
     setlocale(LC_ALL, sc == 2 ? "C" : "C.UTF-8");
     set_str_constraint_handler_s(handler);
     set_mem_constraint_handler_s(handler);
